@@ -538,6 +538,7 @@ static ASMJIT_INLINE void BaseCompiler_clear(BaseCompiler* self) noexcept {
   self->_const_pools[uint32_t(ConstPoolScope::kLocal)] = nullptr;
   self->_const_pools[uint32_t(ConstPoolScope::kGlobal)] = nullptr;
   self->_virt_regs.reset();
+  self->_jump_annotations.reset();
 }
 
 static ASMJIT_INLINE Error BaseCompiler_initDefaultPasses(BaseCompiler* self) noexcept {
